@@ -9,6 +9,7 @@ CONSTANTS
   GasVals = {}
   MaxSteps = 0
   MaxDepth = 0
+  MaxTx = 1
   Bug = "none"
 INIT TraceInit
 NEXT TraceNext
